@@ -71,13 +71,41 @@ MUTANTS = [
     ('pool-poll-takes-last', 'C19', 'Pool.lean', '       | r :: q => some (setSt { s with queue := q } c (.busy r ru))\n       | [] => some (setSt s c (.idle ru)))', '       | r :: q => some (setSt { s with queue := (r :: q).dropLast } c (.busy ((r :: q).getLast (by simp)) ru))\n       | [] => some (setSt s c (.idle ru)))'),
     ('pool-requeue-at-back', 'C19', 'Pool.lean', 'some (setSt { s with queue := r :: s.queue } c .exiting) else none', 'some (setSt { s with queue := s.queue ++ [r] } c .exiting) else none'),
     ('deque-extendleft-not-reversed', 'C19', 'Pool.lean', '    ({ items := xs.reverse ++ d.items, sema := d.sema + ((xs.reverse ++ d.items).length - d.items.length) }, .unit)', '    ({ items := xs ++ d.items, sema := d.sema + ((xs ++ d.items).length - d.items.length) }, .unit)'),
-    ('server-rset-keeps-recipients', 'C07', 'Server.lean', None, None),
     ('mx-insert-before-equal', 'C11', 'Mx.lean', '  | x :: xs => if x.1 > r.1 then r :: x :: xs else x :: insertRec r xs', '  | x :: xs => if x.1 ≥ r.1 then r :: x :: xs else x :: insertRec r xs'),
     ('mx-a-fallback-on-error', 'C11', 'Mx.lean', '  | .error => .dnsError\n  | .noData | .notFound =>\n    match a with\n    | .records l => .hosts (l.map fun _ => (0, 0))', '  | .error | .noData | .notFound =>\n    match a with\n    | .records l => .hosts (l.map fun _ => (0, 0))'),
     ('store-get-ignores-rounds', 'C15', 'Store.lean', '  | _ => delSeq r.delivered r.rcpts', '  | _ => r.rcpts'),
     ('store-redis-incr-creates-zero', 'C15', 'Store.lean', "recs := s.recs ++ [(i, ⟨0, 0, [], [], 1, 0, false⟩)] }, .attempts 1)", "recs := s.recs ++ [(i, ⟨0, 0, [], [], 0, 0, false⟩)] }, .attempts 0)"),
     ('disk-write-meta-first', 'C04', 'DiskFS.lean', 'dump k c1 (.env id) (.envelope e) ++ dump (k + 1) c2 (.mfile id) (.metaC ⟨ts, 0, []⟩)', 'dump (k + 1) c2 (.mfile id) (.metaC ⟨ts, 0, []⟩) ++ dump k c1 (.env id) (.envelope e)'),
-    ('bounce-join-rcpts-sep', 'C13', 'Bounce.lean', None, None),
+
+    # ---- third batch
+    ('data-toobig-at-limit', 'C07', 'Data.lean', '  | some m => m != 0 && size > m', '  | some m => m != 0 && size ≥ m'),
+    ('server-helo-keeps-extensions', 'C07', 'Server.lean', 'extTls := if isE then s1.extTls else false, extAuth := if isE then s1.extAuth else false,', 'extTls := s1.extTls, extAuth := s1.extAuth,'),
+    ('server-ehlo-keeps-transaction', 'C07', 'Server.lean', '{ s1 with haveMail := .unset, haveRcpt := .unset, ehloAs := some a, envelope := none, sessEhlo := some a,', '{ s1 with ehloAs := some a, envelope := none, sessEhlo := some a,'),
+    ('server-starttls-without-ehlo', 'C08', 'Server.lean', '  else if s.ehloAs.isNone then (s, [.reply 503], .continue_)\n  else\n    let (s1, evs, code) := callback v s .starttls 220', '  else\n    let (s1, evs, code) := callback v s .starttls 220'),
+    ('server-auth-during-transaction', 'C08', 'Server.lean', 'else if s.ehloAs.isNone || s.authed || s.haveMail.truthy then (s, [.reply 503], .continue_)', 'else if s.ehloAs.isNone || s.authed then (s, [.reply 503], .continue_)'),
+    ('server-second-mail-accepted', 'C07', 'Server.lean', '        else if s.haveMail.truthy then (s, [.reply 503], .continue_)\n        else\n          let params', '        else\n          let params'),
+    ('server-size-equal-refused', 'C07', 'Server.lean', '| some m => if size > m then (s, [.reply 552], .continue_) else mailAccepted v s addr params', '| some m => if size ≥ m then (s, [.reply 552], .continue_) else mailAccepted v s addr params'),
+    ('server-rcpt-without-mail', 'C07', 'Server.lean', '        else if !s.haveMail.truthy then (s, [.reply 503], .continue_)\n        else\n          let params := gatherParams (rest.length + 1) false rest\n          let (s1, evs, code) := callback v s (.rcpt addr params) 250', '        else\n          let params := gatherParams (rest.length + 1) false rest\n          let (s1, evs, code) := callback v s (.rcpt addr params) 250'),
+    ('server-rset-keeps-flags', 'C07', 'Server.lean', '    let s2 := if code == 250 then { s1 with haveMail := .unset, haveRcpt := .unset } else s1\n    finish { s2 with envelope := none } evs code', '    let s2 := s1\n    finish { s2 with envelope := none } evs code'),
+    ('server-afterdata-keeps-transaction', 'C07', 'Server.lean', '  let s2 := { s1 with haveMail := .unset, haveRcpt := .unset, envelope := none }\n  finish s2 evs code\'', '  let s2 := { s1 with envelope := none }\n  finish s2 evs code\''),
+    ('server-toobig-asks-validators', 'C07', 'Server.lean', "  let code' := if content.isNone then 552 else code", "  let code' := code"),
+    ('server-command-lowercase-unknown', 'C07', 'Server.lean', '  else if rest.all isWs then some (name.map upper, none)', '  else if rest.all isWs then some (name, none)'),
+    ('client-rset-keeps-lmtp-rcpts', 'C10', 'Client.lean', '    if s.lmtp then { s2 with rcpttos := [] } else s2\n  | .ehlo | .lhlo =>', '    s2\n  | .ehlo | .lhlo =>'),
+    ('client-mail-always-flushes', 'C10', 'Client.lean', '  | .mail =>\n    let (s1, _) := enqueue s\n    flushUnlessPipelining s1', '  | .mail =>\n    let (s1, _) := enqueue s\n    flushNow s1'),
+    ('client-lmtp-counts-all-rcpts', 'C10', 'Client.lean', '          | some (c, _) => codeIs2xx c\n          | none => false', '          | some (c, _) => true\n          | none => false'),
+    ('session-no-rset-after-refusal', 'C11', 'RelaySession.lean', '  | some (_, r) => ⟨cmds ++ [.rset], true, false, r⟩', '  | some (_, r) => ⟨cmds, true, false, r⟩'),
+    ('session-dead-connection-goes-on', 'C11', 'RelaySession.lean', '    o.cmds ++ (if o.alive then session lmtp pipelining ns o.rest else [])', '    o.cmds ++ session lmtp pipelining ns o.rest'),
+    ('pool-expire-keeps-client', 'C19', 'Pool.lean', '    | some (.idle _) => if s.reuse then some (setSt s c (if s.persistent then .ready false else .exiting)) else none', '    | some (.idle _) => if s.reuse then some (setSt s c (.ready false)) else none'),
+    ('pool-finish-never-reuses', 'C19', 'Pool.lean', 'c (if s.reuse then .ready true else .exiting))', 'c .exiting)'),
+    ('sched-write-not-tracked', 'C12', 'Sched.lean', 'else some { s with stored := (id, ts) :: s.stored, written := id :: s.written, known := id :: s.known }', 'else some { s with stored := (id, ts) :: s.stored, known := id :: s.known }'),
+    ('sched-announce-unknown-refused', 'C12', 'Sched.lean', '    if s.stored.contains (id, ts) || (s.known.contains id && (tsOf s id).isSome) then', '    if s.known.contains id && (tsOf s id).isSome then'),
+    ('sched-dequeue-ignores-active', 'C12', 'Sched.lean', '            else if s1.active.contains id then s1\n            else handOff s1 id c)', '            else handOff s1 id c)'),
+    ('edge-http-535-is-500', 'C02', 'Edge.lean', 'else if code == 535 then 401 else 500', 'else 500'),
+    ('policy-split-single-copies', 'C16', 'Policy.lean', '    if e.rcpts.length ≤ 1 then (e, none, next)', '    if e.rcpts.length ≤ 0 then (e, none, next)'),
+    ('policy-date-always-added', 'C16', 'Policy.lean', 'hdrs := if hasHdr .date e.hdrs then e.hdrs else e.hdrs ++ [.date] }', 'hdrs := e.hdrs ++ [.date] }'),
+    ('mx-nodata-is-error', 'C11', 'Mx.lean', '    | .noData | .notFound => .nothing\n    | .error => .dnsError', '    | .noData | .notFound | .error => .dnsError'),
+    ('mx-negative-cached', 'C11', 'Mx.lean', '    | .noData | .notFound => some (none, 0)', '    | .noData | .notFound => some (none, now + 60)'),
+    ('data-eod-lone-dot-lf', 'C05', 'Data.lean', '  | b :: rest => b == 46 && rest.all isWs && rest.getLast? == some 10', '  | b :: rest => b == 46 && rest == [13, 10]'),
 
 ]
 
@@ -87,6 +115,7 @@ EXPECTED_SURVIVORS = {
     'attempt-zipdict-appends-duplicates': 'differs only for duplicate recipients; the queue machine and its campaigns are about distinct recipients (hypothesis Nodup, recipients numbered by the harness)',
     'relay-all-rcpts-refused-uses-last': 'equivalent: when every RCPT is refused every recipient has a class of its own, and the raised class is used only when all of them are of one kind',
     'relay-lmtp-missing-eod-is-ok': 'unreachable: a script always holds one end-of-data outcome per recipient (a reply that never comes is the outcome "stall", not a shorter list)',
+    'session-dead-connection-goes-on': 'not observable: after a connection broke the harness compares the commands of that connection only up to the break (what a dead peer would still have been sent is nothing)',
     'store-redis-incr-creates-zero': 'not observable: the answer of an update on a removed id is outside the storage contract (compared nowhere), and the counter of the hash it recreates is never read (get raises KeyError)',
 }
 
